@@ -209,7 +209,17 @@ def ref_sources(text, flt, ign):
 
 
 # ------------------------------------------------------------------ implementation
-def impl_parse(kind, root: Path, text: str, flt, ign, compression=None, pad_mmap=False):
+def compress_members(data: bytes, compression: str, members: int = 1) -> bytes:
+    """[data] as a concatenation of [members] complete streams (gzip members / xz streams / bzip2 streams, as
+    `cat a.gz b.gz`, pigz -i, pbzip2 or dpkg-scanpackages pipelines produce): a legal archive whose content is
+    the concatenation of the parts"""
+    fn = {"xz": lzma.compress, "gz": gzip.compress, "bz2": bz2.compress}[compression]
+    members = max(1, min(members, max(1, len(data))))
+    cuts = [len(data) * i // members for i in range(members + 1)]
+    return b"".join(fn(data[cuts[i]:cuts[i + 1]]) for i in range(members))
+
+
+def impl_parse(kind, root: Path, text: str, flt, ign, compression=None, pad_mmap=False, members=1):
     from apt_mirror.filter import PackageFilter
     from apt_mirror.repository import PackagesParser, SourcesParser
     idx = Path("dists/c/main/binary-amd64/Packages" if kind == "packages" else "dists/c/main/source/Sources")
@@ -218,12 +228,8 @@ def impl_parse(kind, root: Path, text: str, flt, ign, compression=None, pad_mmap
         shutil.rmtree(d)
     d.mkdir(parents=True)
     data = text.encode()
-    if compression == "xz":
-        (root / (str(idx) + ".xz")).write_bytes(lzma.compress(data))
-    elif compression == "gz":
-        (root / (str(idx) + ".gz")).write_bytes(gzip.compress(data))
-    elif compression == "bz2":
-        (root / (str(idx) + ".bz2")).write_bytes(bz2.compress(data))
+    if compression in ("xz", "gz", "bz2"):
+        (root / (str(idx) + "." + compression)).write_bytes(compress_members(data, compression, members))
     else:
         (root / idx).write_bytes(data)
     pf = PackageFilter()
@@ -471,8 +477,9 @@ def gen_case(rng):
         if listed:
             p = rng.choice(listed)
             ign = ign + [rng.choice([p, p, p.rsplit("/", 1)[0], p[:-1]])]
-    return {"kind": kind, "text": text, "flt": flt, "ign": ign,
-            "compression": rng.choice([None, None, None, "xz", "gz", "bz2"])}
+    comp = rng.choice([None, None, None, "xz", "gz", "bz2"])
+    return {"kind": kind, "text": text, "flt": flt, "ign": ign, "compression": comp,
+            "members": rng.choice([1, 1, 2, 3]) if comp else 1}
 
 
 def c_case(root, case):
@@ -491,14 +498,15 @@ def run_cases(rep, cases, root):
     found = False
     rows = {"packages": [], "sources": []}
     for case in cases:
-        o = impl_parse(case["kind"], root, case["text"], case["flt"], case["ign"], case.get("compression"))
+        o = impl_parse(case["kind"], root, case["text"], case["flt"], case["ign"], case.get("compression"),
+                       members=case.get("members", 1))
         ref = (ref_packages if case["kind"] == "packages" else ref_sources)(case["text"], case["flt"], case["ign"])
         nst = case["text"].count("Package:")
         rep.case((case["kind"], nst, len(o) if o is not None else -1, bool(any(case["flt"].values())),
                   bool(case["ign"]), case.get("compression"), case["text"].endswith("\n")),
                  sample={"kind": case["kind"], "text": case["text"][:400], "flt": case["flt"], "result": o})
         rep.count(f"{case['kind']}.entries.{min(len(o), 5) if o is not None else 'crash'}")
-        rep.count(f"compression.{case.get('compression')}")
+        rep.count(f"compression.{case.get('compression')}" + (f".x{case.get('members', 1)}" if case.get("compression") else ""))
         if o != ref:
             found = True
             missing = [x for x in ref if o is None or x not in o][:3]
